@@ -304,6 +304,12 @@ def run_item(item):
                 got = ''.join(c.ch for c in infos[pos].row.cells if gen.TAG_BY_RGB.get(c.fg) == 'hh')
                 if got.strip() != frag.replace('\t', ' ' * 8).strip() and got.strip() != frag.strip():
                     return bad('fragment', 'hunk header does not carry the code fragment git supplied', frag, got)
+                if frag.strip() and '--tabs' not in opts:
+                    # unchanged also means its own blanks: the fragment is shown between two blanks, with its leading and
+                    # trailing white space (tabs as 8 columns)
+                    core = frag.replace('\t', ' ' * 8)
+                    if core not in got or not got.rstrip(' ').endswith(core.rstrip(' ')) or len(got) - len(got.lstrip(' ')) < len(core) - len(core.lstrip(' ')):
+                        return bad('fragment-blanks', 'hunk header shows the code fragment with other leading / trailing blanks than git supplied', core, got)
                 counters['hunk_headers'] += 1
                 counters['fragments_compared'] += 1 if frag.strip() else 0
                 pos += 1
